@@ -1,7 +1,7 @@
 (* C19: bounded memory, nothing leaked.
    Statements only: each theorem restates the full type of a lemma proved in coq/proofs and is closed by
    `exact`; Print Assumptions beneath.  Regenerate with bin/genprops.py after a lemma changes. *)
-From LLTD Require Import BlockFun BlockSafe FaultProofs.
+From LLTD Require Import BlockFun BlockSafe FaultProofs EndToEnd.
 
 Theorem C19_ledger_is_what_records_hold :
   forall (af sf : N -> bool) (junk : N) (cfgs : N -> pcfg) (g : gcfg) (l : list fop)
@@ -48,3 +48,24 @@ Theorem C19_after_reset_only_record :
   norm s' = fresh /\ w_live w' = bl /\ w_bytes w' = bb /\ w_trace w' = w_trace w /\ w_now w' = w_now w.
 Proof. exact reset_any_oracle. Qed.
 Print Assumptions C19_after_reset_only_record.
+
+Theorem C19_any_history_from_start_bounded :
+  forall (af sf : N -> bool) (junk : N) (cfgs : N -> pcfg) (g : gcfg) (l : list fop),
+  Forall (fop_ok cfgs) l ->
+  exists (r' : registry) (w' : world),
+  run_frames af sf junk cfgs g [] l world0 = Ok r' w' /\
+  (w_bytes w' <= N.of_nat (length r') * per_iface_bound g)%N /\
+  w_live w' <= length r' * (2 + o LLTD_SEE_LIST_MAX) /\
+  length r' <= distinct_ifaces l /\ length r' <= length l.
+Proof. exact C19_history_bound. Qed.
+Print Assumptions C19_any_history_from_start_bounded.
+
+Theorem C19_retained_per_interface :
+  forall (af sf : N -> bool) (junk : N) (cfgs : N -> pcfg) (g : gcfg) (l : list fop),
+  Forall (fop_ok cfgs) l ->
+  exists (r' : registry) (w' : world),
+  run_frames af sf junk cfgs g [] l world0 = Ok r' w' /\
+  (w_bytes w' <= N.of_nat (distinct_ifaces l) * per_iface_bound g)%N /\
+  w_live w' <= distinct_ifaces l * (2 + o LLTD_SEE_LIST_MAX).
+Proof. exact C19_retained_per_interface. Qed.
+Print Assumptions C19_retained_per_interface.
